@@ -370,7 +370,7 @@ def run(ctx):
     if ctx.replay:
         cases = [json.load(open(ctx.replay))['case']]
     else:
-        cases += [gen_case(rng) for _ in range(ctx.scale(70, 900))]
+        cases += [gen_case(rng) for _ in range(ctx.scale(70, 600))]
     terms, meta = [], []
     for c, obs in zip(cases, pmap_drive(cases)):
         batch = obs['runs'][0]
